@@ -23,6 +23,8 @@ type Scenario struct {
 	Nodes   []NodeSpec     `json:"nodes"`
 	Pods    []PodSpec      `json:"pods"`
 	PDBs    []PDBSpec      `json:"pdbs"`
+	// DaemonSets: DaemonSet objects (C06 scenarios; see c06.go)
+	DaemonSets []DSSpec `json:"daemonsets,omitempty"`
 	// T0: the clock value at which the cluster is complete and the first step runs. Nominations and
 	// other clock-dependent in-memory marks are applied on the way there, at their own instants.
 	T0    int    `json:"t0"`
@@ -35,6 +37,16 @@ type Options struct {
 	MinValuesPolicy string `json:"minValuesPolicy"` // "" = Strict
 	PreferIgnore    bool   `json:"preferIgnore"`
 	CapacityBuffer  bool   `json:"capacityBuffer"`
+	// Project: "" | "c06" (Cmd/QCmd additionally carry the SchedulingGuards-shaped cluster and claims, see c06.go)
+	Project string `json:"project,omitempty"`
+}
+
+// DSSpec: a DaemonSet object (C06 scenarios); its pods are PodSpecs with DS = its name.
+type DSSpec struct {
+	Name  string            `json:"name"`
+	CPU   int               `json:"cpu"`
+	MemMi int               `json:"memMi"`
+	Sel   map[string]string `json:"sel,omitempty"` // nodeSelector of the pod template, short keys
 }
 
 type OfferingSpec struct {
@@ -42,6 +54,9 @@ type OfferingSpec struct {
 	CT        string `json:"ct"`
 	Price     int    `json:"price"` // 1/1000
 	Available bool   `json:"available"`
+	// Rid / Rcap: reservation id and capacity of a reserved offering (ct "reserved"); C06 scenarios
+	Rid  string `json:"rid,omitempty"`
+	Rcap int    `json:"rcap,omitempty"`
 }
 
 type TypeSpec struct {
@@ -129,6 +144,8 @@ type NodeSpec struct {
 	Consolidatable string `json:"consolidatable"`
 	Tainted        bool   `json:"tainted"` // karpenter.sh/disrupted:NoSchedule already present (left-over)
 	ExpireAfter    int    `json:"expireAfter"` // -1 Never
+	// Taints: extra persistent taints on the Node (C06 scenarios)
+	Taints []TaintSpec `json:"taints,omitempty"`
 }
 
 type PodSpec struct {
@@ -155,6 +172,11 @@ type PodSpec struct {
 	ReadyFalse bool `json:"readyFalse"`
 	// Ext: scheduling-relevant extras (host port, preferred/required zone, anti-affinity, spread, pvc), see x_frame.go (C18).
 	Ext map[string]string `json:"ext,omitempty"`
+	// Sel: nodeSelector with the short keys of spec/SCHED_TRACE.md (zone, ct, it, ...); Tol: extra tolerations (C06 scenarios)
+	Sel map[string]string `json:"sel,omitempty"`
+	Tol []TolSpec         `json:"tol,omitempty"`
+	// DS: the pod belongs to this DaemonSet of Scenario.DaemonSets (owner reference to the real object)
+	DS string `json:"ds,omitempty"`
 }
 
 type PDBSpec struct {
@@ -206,6 +228,12 @@ type Step struct {
 	Pod    *PodSpec `json:"pod,omitempty"`
 	PDB    *PDBSpec `json:"pdb,omitempty"`
 	During []Step   `json:"during,omitempty"`
+	// SetOffering{type, zone, ct, price (1/1000, -1 keep), available}: one offering of the provider catalog changes
+	Type      string `json:"type,omitempty"`
+	Zone      string `json:"zone,omitempty"`
+	CT        string `json:"ct,omitempty"`
+	Price     int    `json:"price,omitempty"`
+	Available bool   `json:"available,omitempty"`
 }
 
 // Defaults: absent integer fields that mean "none" default to -1 (not Go's 0).
